@@ -1,4 +1,120 @@
-/- oracle_c09 — placeholder driver (replaced when the C09 model is added). -/
+/-
+  oracle_c09 — line-protocol driver for Model.Wire (transaction / block wire format).
+  Requests (byte strings hex, "-" = empty):
+    tx <raw>      -> none
+                   | ok <consumed> <nowitsize(NewTx)> <segwit:0|1> <nin> <nout> <encodeTx> <encodeTxNoWit>
+                        <hash> <wtxid> <size> <nowitsize(SetHash)> <weight> <vsize> <txSize>
+                     (ids are those of SetHash(raw[:consumed]) with H = sha256d)
+    txsize <raw>  -> <n>
+    lax <raw>     -> none | ok <consumed> <encodeTx>        (NewTx as it was before the fix)
+    enc <ver> <lock> <segwit:0|1> <nin> {<hash> <idx> <script> <seq>}* <nout> {<value> <script>}*
+        [<nstacks> {<nitems> {<item>}*}*]   -> ok <encodeTx> <encodeTxNoWit>
+    block <raw>   -> <err:none|tooShort|badCount|txFailed> <txCount> <weight> <ntx> {<hash>:<wtxid>:<size>:<nowitsize>}*
+-/
+import GocoinV.Model.Wire
+import GocoinV.Base.Sha256
 import GocoinV.Base.Proto
-open GocoinV
-def main : IO Unit := Proto.serve () (fun _ _ => ((), "bad-op"))
+open GocoinV GocoinV.Wire
+
+def txReply (b : Bytes) : String :=
+  match decodeTxFull b with
+  | none => "none"
+  | some d =>
+    let raw := b.take d.consumed
+    let ids := setHash sha256d d.tx raw
+    let sw := match d.tx.witness with | some _ => "1" | none => "0"
+    s!"ok {d.consumed} {d.noWitSize} {sw} {d.tx.ins.length} {d.tx.outs.length} {Hex.encode (encodeTx d.tx)} {Hex.encode (encodeTxNoWit d.tx)} {Hex.encode ids.hash} {Hex.encode ids.wtxid} {ids.size} {ids.noWitSize} {weight ids.noWitSize ids.size} {vsize ids.noWitSize ids.size} {txSize b}"
+
+/-- token-stream parser for `enc` -/
+def takeIns : Nat → List String → Option (List TxIn × List String)
+  | 0, ts => some ([], ts)
+  | n+1, h :: i :: s :: q :: ts => do
+    let h ← Hex.decode h
+    let i ← i.toNat?
+    let s ← Hex.decode s
+    let q ← q.toNat?
+    let (l, ts) ← takeIns n ts
+    pure ({ prevHash := h, prevIdx := i, scriptSig := s, sequence := q } :: l, ts)
+  | _, _ => none
+
+def takeOuts : Nat → List String → Option (List TxOut × List String)
+  | 0, ts => some ([], ts)
+  | n+1, v :: s :: ts => do
+    let v ← v.toNat?
+    let s ← Hex.decode s
+    let (l, ts) ← takeOuts n ts
+    pure ({ value := v, pkScript := s } :: l, ts)
+  | _, _ => none
+
+def takeItems : Nat → List String → Option (List Bytes × List String)
+  | 0, ts => some ([], ts)
+  | n+1, x :: ts => do
+    let x ← Hex.decode x
+    let (l, ts) ← takeItems n ts
+    pure (x :: l, ts)
+  | _, _ => none
+
+def takeStacks : Nat → List String → Option (List (List Bytes) × List String)
+  | 0, ts => some ([], ts)
+  | n+1, k :: ts => do
+    let k ← k.toNat?
+    let (s, ts) ← takeItems k ts
+    let (l, ts) ← takeStacks n ts
+    pure (s :: l, ts)
+  | _, _ => none
+
+def encReply (ts : List String) : Option String :=
+  match ts with
+  | ver :: lock :: sw :: nin :: ts => do
+    let ver ← ver.toNat?
+    let lock ← lock.toNat?
+    let nin ← nin.toNat?
+    let (ins, ts) ← takeIns nin ts
+    match ts with
+    | nout :: ts =>
+      let nout ← nout.toNat?
+      let (outs, ts) ← takeOuts nout ts
+      let wit ← (if sw == "1" then
+          match ts with
+          | ns :: ts => do
+            let ns ← ns.toNat?
+            let (w, ts) ← takeStacks ns ts
+            if ts.isEmpty then pure (some w) else none
+          | [] => none
+        else if sw == "0" ∧ ts.isEmpty then pure none else none : Option (Option (List (List Bytes))))
+      let t : Tx := { version := ver, ins := ins, outs := outs, witness := wit, lockTime := lock }
+      pure s!"ok {Hex.encode (encodeTx t)} {Hex.encode (encodeTxNoWit t)}"
+    | [] => none
+  | _ => none
+
+def errStr : Option BlockErr → String
+  | none => "none" | some .tooShort => "tooShort" | some .badCount => "badCount" | some .txFailed => "txFailed"
+
+def blockReply (b : Bytes) : String :=
+  let r := decodeBlock sha256d b
+  let txs := r.txs.map fun t => s!"{Hex.encode t.ids.hash}:{Hex.encode t.ids.wtxid}:{t.ids.size}:{t.ids.noWitSize}"
+  s!"{errStr r.err} {r.txCount} {r.weight} {r.txs.length} " ++ " ".intercalate txs
+
+def step (_ : Unit) (toks : List String) : Unit × String :=
+  let bad := ((), "bad-op")
+  match toks with
+  | ["tx", b] => match Hex.decode b with
+    | some b => ((), txReply b)
+    | none => bad
+  | ["txsize", b] => match Hex.decode b with
+    | some b => ((), toString (txSize b))
+    | none => bad
+  | ["lax", b] => match Hex.decode b with
+    | some b => match decodeTxLax b with
+      | some (t, n) => ((), s!"ok {n} {Hex.encode (encodeTx t)}")
+      | none => ((), "none")
+    | none => bad
+  | "enc" :: ts => match encReply ts with
+    | some r => ((), r)
+    | none => bad
+  | ["block", b] => match Hex.decode b with
+    | some b => ((), blockReply b)
+    | none => bad
+  | _ => bad
+
+def main : IO Unit := Proto.serve () step
